@@ -73,6 +73,34 @@ def rule_product_rule(repo: Repo) -> List[Ob]:
                     mpart, cpart = tb[0], fb[0]
                 elif "issubset" in src(iff.test) or "<=" in src(iff.test):
                     cpart, mpart = tb[0], fb[0]
+    def parts_in(node):
+        """(constant part, monomial part) accumulators of a factor loop inside `node`"""
+        for inner in [n for n in ast.walk(node) if isinstance(n, ast.For) and n is not loop]:
+            for iff in [n for n in ast.walk(inner) if isinstance(n, ast.If)]:
+                tb = [x.target.id for x in iff.body if isinstance(x, ast.AugAssign) and isinstance(x.op, ast.Mult) and isinstance(x.target, ast.Name)]
+                fb = [x.target.id for x in iff.orelse if isinstance(x, ast.AugAssign) and isinstance(x.op, ast.Mult) and isinstance(x.target, ast.Name)]
+                if len(tb) == 1 and len(fb) == 1 and "symbols" in src(iff.test):
+                    if "difference" in src(iff.test) or " - " in src(iff.test):
+                        return fb[0], tb[0]
+                    if "issubset" in src(iff.test) or "<=" in src(iff.test):
+                        return tb[0], fb[0]
+        return None
+    if cpart is None:
+        # the separation may live in a helper:  c, m = self._split(summand)
+        for st in ast.walk(loop):
+            if isinstance(st, ast.Assign) and isinstance(st.targets[0], ast.Tuple) and len(st.targets[0].elts) == 2 and isinstance(st.value, ast.Call) \
+                    and isinstance(st.value.func, ast.Attribute) and isinstance(st.value.func.value, ast.Name) and st.value.func.value.id == selfn and f.cls is not None:
+                h = f.cls.find_method(st.value.func.attr)
+                if h is None:
+                    continue
+                pr = parts_in(h.node)
+                rets = [r.value for r in walk_no_nested(h.node) if isinstance(r, ast.Return) and isinstance(r.value, ast.Tuple) and len(r.value.elts) == 2]
+                if pr and len(rets) == 1 and all(isinstance(e, ast.Name) for e in rets[0].elts):
+                    order = [e.id for e in rets[0].elts]
+                    names = [e.id for e in st.targets[0].elts if isinstance(e, ast.Name)]
+                    if len(names) == 2 and set(order) == set(pr):
+                        cpart = names[order.index(pr[0])]
+                        mpart = names[order.index(pr[1])]
     if cpart is None:
         return [inconclusive(R, key, DRB, loop.lineno, f.qualname, "separation of a summand into its constant and its monomial part not recognised")]
     dep_helpers = {m.name for m in (f.cls.all_methods if f.cls else []) if "dependent" in m.name}
@@ -115,7 +143,7 @@ def rule_product_rule(repo: Repo) -> List[Ob]:
         if any(k.startswith("?") for k in env):
             unknown.append("test `" + next(k for k in env if k.startswith("?"))[1:] + "` not recognised")
             continue
-        if skipped:
+        if skipped and not terms:
             if env.get("S") is False or (env.get("C") is False and env.get("M") is False):
                 continue          # derivative of a parameter-independent summand is 0
             problems.append(f"a summand is skipped although it depends on the parameter ({env})")
@@ -225,6 +253,16 @@ def rule_diff_param(repo: Repo) -> List[Ob]:
                     params.add(nm)
         bad = [d for d in diffs if not (len(d.args) == 1 and isinstance(d.args[0], ast.Name) and d.args[0].id in params)]
         guarded = any("valid" in src(t.ast) or any(p in src(t.ast) for p in params) for t, _ in c.raise_guards())
+        # what is differentiated is the whole reported closed form (special cases included), not a projection of it
+        proj = [d for d in diffs if isinstance(d.func, ast.Attribute) and isinstance(d.func.value, ast.Call)
+                and (call_name(d.func.value) or "") in ("unpack_piecewise", "without_piecewise")]
+        proj += [d for d in diffs if isinstance(d.func, ast.Attribute) and isinstance(d.func.value, ast.Name)
+                 and any(isinstance(v, ast.Call) and (call_name(v) or "") in ("unpack_piecewise", "without_piecewise") for v in hdefs.defs.get(d.func.value.id, []))]
+        if proj:
+            obs.append(Ob(R, f"{ACT}::{h.qualname}::whole-closed-form", ACT, proj[0].lineno, h.qualname, False,
+                          f"`{src(proj[0])[:70]}` differentiates only the general case of the closed form: the listed special cases (small n) are reported with the derivative of a formula that does not hold there"))
+        else:
+            obs.append(Ob(R, f"{ACT}::{h.qualname}::whole-closed-form", ACT, diffs[0].lineno, h.qualname, True, "the whole piecewise closed form is differentiated"))
         if not params:
             obs.append(inconclusive(R, key, ACT, diffs[0].lineno, h.qualname, "validated parameter symbol not recognised"))
         else:
@@ -282,6 +320,17 @@ def rule_dependence_closure(repo: Repo) -> List[Ob]:
         else:
             obs.append(inconclusive(R, key, SA, f.node.lineno, f.qualname, "transitive closure not recognised"))
         return obs
+    # every assignment kind takes part: a filter on a subclass of Assignment drops draws / functional assignments from the closure
+    base = repo.cls("Assignment", "program/assignment/assignment.py")
+    subnames = {c0.name for c0 in repo.subclasses(base)} - {"Assignment"}
+    narrow = [t for t in walk_no_nested(f.node) if isinstance(t, ast.Call) and call_name(t) == "isinstance" and len(t.args) == 2
+              and any(isinstance(x, ast.Name) and x.id in subnames for x in ast.walk(t.args[1]))]
+    keyk = f"{SA}::{f.qualname}::all-kinds"
+    if narrow:
+        obs.append(Ob(R, keyk, SA, narrow[0].lineno, f.qualname, False,
+                      f"`{src(narrow[0])}` restricts the dependence analysis to one kind of assignment: a draw or functional assignment that depends on the parameter only through its condition or arguments is treated as independent"))
+    else:
+        obs.append(Ob(R, keyk, SA, f.node.lineno, f.qualname, True, "all kinds of assignments take part in the dependence analysis"))
     w, stable_exit = fix
     secs = sections_in(w)
     if not stable_exit:
